@@ -36,8 +36,70 @@ fn inner(ix: &[usize], n: usize, salt: u64) -> Inner {
     Inner { pis }
 }
 
+/// --replay <file>: re-run the recorded (address, inners) case(s) through CX on a freshly
+/// built wrapper and compare with the reference predicate / aggregate. No evidence is written.
+fn replay(path: &str) -> i32 {
+    let v: serde_json::Value = serde_json::from_str(&std::fs::read_to_string(path).unwrap_or_else(|e| machinery_error(&format!("replay file {path}: {e}")))).unwrap_or_else(|e| machinery_error(&format!("replay file {path}: {e}")));
+    let case = &v["case"];
+    let cases: Vec<&serde_json::Value> = if case["inners"].is_null() { vec![&case["a"], &case["b"]] } else { vec![case] };
+    let leaf = LeafCtx::new();
+    let mut bad = 0;
+    let mut accepts = Vec::new();
+    for c in cases {
+        let (m, n) = match (c["m"].as_u64(), c["n"].as_u64()) {
+            (Some(m), Some(n)) => (m as usize, n as usize),
+            _ => machinery_error("replay file holds no (m, n, address, inners) case (sampled large shapes are replayed by re-running the check)"),
+        };
+        let u64s = |x: &serde_json::Value| -> Vec<u64> { x.as_array().map(|a| a.iter().filter_map(|y| y.as_u64()).collect()).unwrap_or_default() };
+        let a = u64s(&c["address"]);
+        if a.len() != 4 {
+            machinery_error("replay file: address is not four limbs");
+        }
+        let addr: D4 = [a[0], a[1], a[2], a[3]];
+        let inners: Vec<Inner> = c["inners"].as_array().map(|a| a.iter().map(|i| Inner { pis: u64s(i) }).collect()).unwrap_or_default();
+        if inners.len() != m || inners.iter().any(|i| i.pis.len() != 21 * n + 8) {
+            machinery_error("replay file: inners do not have the recorded shape");
+        }
+        let w = build_pub_wrapper(m, n, &leaf.data.common);
+        let cx = Cx::new(&w.data);
+        let spec = public_accepts(&inners);
+        match cx.run(&w.inputs(addr, &inners), &[], &[], false).verdict {
+            Verdict::Accept { pis, .. } => {
+                accepts.push(true);
+                println!("M={m} N={n}: circuit ACCEPTS / spec {}", if spec.is_ok() { "accepts".to_string() } else { format!("rejects ({})", spec.unwrap_err()) });
+                let want = public_agg(addr, &inners);
+                println!("  output   {pis:?}\n  expected {want:?}");
+                if spec.is_err() || pis != want {
+                    bad += 1;
+                }
+            }
+            Verdict::Reject(r) => {
+                accepts.push(false);
+                println!("M={m} N={n}: circuit REJECTS ({r:?}) / spec {}", if spec.is_ok() { "accepts" } else { "rejects" });
+                if spec.is_ok() {
+                    bad += 1;
+                }
+            }
+        }
+    }
+    if accepts.len() == 2 && accepts[0] != accepts[1] {
+        println!("acceptance differs between two cases that differ only in never-cross-checked fields");
+        bad += 1;
+    }
+    if bad > 0 {
+        println!("VIOLATION property={} replay={path}", v["property"].as_str().unwrap_or("?"));
+        1
+    } else {
+        println!("no oracle is violated by the recorded case(s)");
+        0
+    }
+}
+
 fn main() {
     quiet_panics();
+    if let Some(path) = arg_value("--replay") {
+        std::process::exit(replay(&path));
+    }
     let tier = tier_from_args();
     let thorough = tier == "thorough";
     let prop = arg_value("--property").unwrap_or_else(|| "C12".into());
